@@ -72,6 +72,22 @@ def tbSiCheckMotion (proj : σ → S → Option (Bool × S × σ)) (cur : Option
       | some p => some { cm with first := some p.2.1, st := p.2.2 }
   else some cm
 
+/-- the same with the repair proposed in notes/C16-fix-F460.diff: a copy of `s1` is taken before the validator runs
+(`lastValid.first` may alias `s1`); when the projection fails, `*lastValid.first := s1` and `lastValid.second := 0`
+("nothing beyond `s1` is known to be valid") instead of leaving the failed iterate there. -/
+def tbSiCheckMotionFixed (proj : σ → S → Option (Bool × S × σ)) (zero : D) (cur : Option S) (s1 : S)
+    (cm : CM2 σ S D) : Option (CM2 σ S D) :=
+  if cm.verdict = false then
+    match (match cm.first with | some x => some x | none => cur) with
+    | none => some cm
+    | some x =>
+      match proj cm.st x with
+      | none => none
+      | some p =>
+        if p.1 then some { cm with first := some p.2.1, st := p.2.2 }
+        else some { cm with first := some s1, second := some zero, st := p.2.2 }
+  else some cm
+
 /-- one pass of the rejection loop's body: draw, then `si_->isValid(state) && constraint_->isSatisfied(state)`
 (short-circuit). -/
 def validAttempt (draw : σ → S × σ) (isValid isSat : σ → S → Bool × σ) (s : σ) : Bool × S × σ :=
